@@ -38,7 +38,8 @@ pub open spec fn src_first(h: Hunk) -> int {
 pub open spec fn tgt_first(h: Hunk) -> int {
     if h.target_length == 0 { h.target_start + 1 } else { h.target_start as int }
 }
-/// next old-file (source) line number before position k of the hunk
+/// next old-file (source) line number before position k of the hunk (a marker line is no line: it
+/// does not advance the cursor)
 pub open spec fn cs(h: Hunk, k: int) -> int
     decreases k
 {
@@ -46,7 +47,7 @@ pub open spec fn cs(h: Hunk, k: int) -> int
         cs(h, k - 1) + if kind(h.spec_lines()[k - 1]) == Kind::Ctx || kind(h.spec_lines()[k - 1]) == Kind::Rem { 1int } else { 0int }
     }
 }
-/// next new-file (target) line number before position k of the hunk
+/// next new-file (target) line number before position k of the hunk (a marker line is no line)
 pub open spec fn ct(h: Hunk, k: int) -> int
     decreases k
 {
@@ -55,10 +56,65 @@ pub open spec fn ct(h: Hunk, k: int) -> int
     }
 }
 
-/// line k of the hunk is numbered by the running cursors and is a `+`, `-` or ` ` line
+// ---- marker lines (`\ No newline at end of file`) ---------------------------------------------
+// A line of kind Other is git's marker "the line before me has no final newline". It is NOT a line
+// of either file: property C01 speaks of lines the diff "adds, edits or deletes", and the marker is
+// none. Every specification function below therefore treats a marker line as ABSENT: the cursors
+// `cs` / `ct` do not advance over it (so `hunk_gap`, the header-length clauses of `hunk_wf` and
+// `post_deletion_new_numbering` do not see it), it does not end a group of changed lines (`gstart`),
+// it is not counted among the removed lines of its group (`mk` in `paired`, `replace_group`,
+// `kf2_carve_out`, `removed_accounted`), a run of removed lines followed by a marker line is
+// "followed by" whatever follows the marker (`next_is` in `pure_del_run`, hence in
+// `kf1_carve_out`), and it is never the origin of an entry (`entry_ok`). What is specified for a
+// hunk with marker lines is what is specified for the same hunk with the marker lines deleted; this
+// is PROVED (not assumed) position by position in prelude/diff_lines_proof.rs,
+// `lemma_marker_is_no_line_*`.
+//
+// T-ext (trusted assumption about git + unidiff-0.4.0, checked on real `git diff` output by the
+// conformance harness cex T.unidiff): marker lines occur only between the last removed and the
+// first added line of a group; a trailing marker is dropped by unidiff's early break.
+//   * git prints the marker directly after the last line of the old file (a `-` or ` ` line) and/or
+//     the last line of the new file (a `+` or ` ` line) when that file lacks the final newline;
+//     within a group of changed lines it prints all `-` lines before all `+` lines.
+//   * unidiff-0.4.0 `parse_hunk` keeps the marker as a `Line` with line_type "\", no source and no
+//     target number, advances neither cursor, and STOPS reading the hunk (`break`) as soon as both
+//     cursors have reached the ends announced by the `@@` header. A marker that follows the last
+//     real line of the hunk (after the last `+`, after a final ` `, after the last `-` of a hunk
+//     that adds nothing behind it) is therefore never part of the hunk.
+//   * What remains: the old file's last line lacks the newline, it is removed (or re-written), and
+//     added lines follow: `-a`, `-b`, `\ No newline at end of file`, `+c`.
+/// the marker line at position k is in the one admissible position (T-ext above)
+pub open spec fn marker_wf(ls: Seq<Line>, k: int) -> bool {
+    // it carries no line number of either file
+    &&& ls[k].source_line_no is None && ls[k].target_line_no is None
+    // it directly follows a removed line (the last line of the old file) ...
+    &&& k > 0 && kind(ls[k - 1]) == Kind::Rem
+    // ... it is not the last line of the hunk, and the next line is an added line
+    &&& k + 1 < ls.len() && kind(ls[k + 1]) == Kind::Add
+}
+
+/// 1 if the line just before position k is a marker line, else 0 (position k - mk(ls, k) is where
+/// the lines of the files end before k). Opaque for the solver's sake only (every lemma that needs
+/// the definition reveals it): left visible, its case split made the FAILING search of the uncarved
+/// KF2 clause in group difflines_kf run into the resource limit instead of failing cleanly.
+#[verifier::opaque]
+pub open spec fn mk(ls: Seq<Line>, k: int) -> int {
+    if k > 0 && kind(ls[k - 1]) == Kind::Other { 1 } else { 0 }
+}
+
+/// the first line of either file at or after position e exists and is of kind `kd`: a marker line
+/// at e is skipped (`marker_wf`: a marker line is followed by an added line, so there are never two
+/// in a row)
+pub open spec fn next_is(ls: Seq<Line>, e: int, kd: Kind) -> bool {
+    ||| 0 <= e < ls.len() && kind(ls[e]) == kd
+    ||| 0 <= e && e + 1 < ls.len() && kind(ls[e]) == Kind::Other && kind(ls[e + 1]) == kd
+}
+
+/// line k of the hunk is numbered by the running cursors and is a `+`, `-` or ` ` line, or it is a
+/// marker line in the admissible position
 pub open spec fn line_wf(h: Hunk, k: int) -> bool {
     let ls = h.spec_lines();
-    &&& kind(ls[k]) != Kind::Other
+    &&& kind(ls[k]) == Kind::Other ==> marker_wf(ls, k)
     &&& kind(ls[k]) == Kind::Add || kind(ls[k]) == Kind::Ctx
             ==> ls[k].target_line_no is Some && ls[k].target_line_no.unwrap() as int == ct(h, k)
     &&& kind(ls[k]) == Kind::Rem || kind(ls[k]) == Kind::Ctx
@@ -88,7 +144,8 @@ pub open spec fn file_wf(f: PatchedFile) -> bool {
 }
 
 // ---- expected entries ------------------------------------------------------------------------
-/// start of the run of changed (non-context) lines that ends just before position k
+/// start of the run of changed (non-context) lines that ends just before position k (a marker line
+/// is no line: it does not end the run)
 pub open spec fn gstart(ls: Seq<Line>, k: int) -> int
     decreases k
 {
@@ -101,16 +158,18 @@ pub open spec fn fadd(ls: Seq<Line>, k: int) -> int
     if k <= 0 { 0 } else if kind(ls[k - 1]) == Kind::Add { fadd(ls, k - 1) } else { k }
 }
 /// the added line at k is the j-th added line of its group, the group has r removed lines
-/// (all before its first added line): paired iff j < r
+/// (all before its first added line; a marker line between them and the first added line is no
+/// line and is not counted): paired iff j < r
 pub open spec fn paired(ls: Seq<Line>, k: int) -> bool {
-    k - fadd(ls, k) < fadd(ls, k) - gstart(ls, fadd(ls, k))
+    k - fadd(ls, k) < (fadd(ls, k) - mk(ls, fadd(ls, k))) - gstart(ls, fadd(ls, k))
 }
-/// [ks, e) is a maximal run of removed lines that is not followed by an added line
+/// [ks, e) is a maximal run of removed lines that is not followed by an added line (a marker line
+/// at e is no line: what follows the run is what follows the marker)
 pub open spec fn pure_del_run(ls: Seq<Line>, ks: int, e: int) -> bool {
     &&& 0 <= ks < e <= ls.len()
     &&& ks == 0 || kind(ls[ks - 1]) != Kind::Rem
     &&& forall|j: int| ks <= j < e ==> kind(#[trigger] ls[j]) == Kind::Rem
-    &&& e == ls.len() || (kind(ls[e]) != Kind::Rem && kind(ls[e]) != Kind::Add)
+    &&& !next_is(ls, e, Kind::Rem) && !next_is(ls, e, Kind::Add)
 }
 
 /// ghost: the diff line that caused an output entry (`e` = end of the run for a pure deletion)
@@ -152,7 +211,10 @@ pub open spec fn post_nothing_else(f: PatchedFile, out: Seq<LineChange>, o: Seq<
     &&& o.len() == out.len()
     &&& forall|i: int| 0 <= i < out.len() ==> entry_ok(f, #[trigger] out[i], o[i])
 }
-/// (d) one entry per origin, in diff order
+/// (d) one entry per origin, in diff order. Opaque for the solver's sake only (the two step lemmas
+/// that extend the sequence reveal it): the two-trigger quantifier is quadratic in the number of
+/// `o[i]` terms and dominated the FAILING searches of group difflines_kf.
+#[verifier::opaque]
 pub open spec fn post_origin_increasing(o: Seq<Orig>) -> bool {
     forall|i: int, j: int| 0 <= i < j < o.len() ==> orig_lt(#[trigger] o[i], #[trigger] o[j])
 }
@@ -184,12 +246,13 @@ pub open spec fn deletion_entry(l: Line) -> LineChange {
 }
 
 // ---- every removed line is accounted for (C01: "... or DELETES a line ...") --------------------
-/// [gs, fa) is a maximal run of removed lines that IS followed by added lines, [fa, ge) is the
-/// maximal run of those added lines: a "replace group" with fa - gs removed and ge - fa added lines
+/// [gs, re) with re = fa - mk(ls, fa) is a maximal run of removed lines that IS followed by added
+/// lines (a marker line between the two runs is no line), [fa, ge) is the maximal run of those added
+/// lines: a "replace group" with re - gs removed and ge - fa added lines
 pub open spec fn replace_group(ls: Seq<Line>, gs: int, fa: int, ge: int) -> bool {
-    &&& 0 <= gs < fa < ge <= ls.len()
+    &&& 0 <= gs < fa - mk(ls, fa) && fa < ge <= ls.len()
     &&& gs == 0 || kind(ls[gs - 1]) != Kind::Rem
-    &&& forall|j: int| gs <= j < fa ==> kind(#[trigger] ls[j]) == Kind::Rem
+    &&& forall|j: int| gs <= j < fa - mk(ls, fa) ==> kind(#[trigger] ls[j]) == Kind::Rem
     &&& forall|j: int| fa <= j < ge ==> kind(#[trigger] ls[j]) == Kind::Add
     &&& ge == ls.len() || kind(ls[ge]) != Kind::Add
 }
@@ -208,7 +271,7 @@ pub open spec fn surplus_reported(f: PatchedFile, out: Seq<LineChange>, h: int, 
 /// run that has its entry
 pub open spec fn removed_accounted(f: PatchedFile, out: Seq<LineChange>, o: Seq<Orig>, h: int, k: int) -> bool {
     let ls = hunk_lines(f, h);
-    ||| exists|gs: int, fa: int, ge: int| #[trigger] replace_group(ls, gs, fa, ge) && gs <= k < fa
+    ||| exists|gs: int, fa: int, ge: int| #[trigger] replace_group(ls, gs, fa, ge) && gs <= k < fa - mk(ls, fa)
             && (k - gs < ge - fa || surplus_reported(f, out, h, fa, ge))
     ||| exists|ks: int, e: int| #[trigger] pure_del_run(ls, ks, e) && ks <= k < e && has_entry(o, h, ks)
 }
@@ -218,10 +281,10 @@ pub open spec fn post_removed_accounted(f: PatchedFile, out: Seq<LineChange>, o:
         && kind(#[trigger] hunk_lines(f, h)[k]) == Kind::Rem ==> removed_accounted(f, out, o, h, k)
 }
 
-/// KF2 carve-out: no replace group has more removed than added lines
+/// KF2 carve-out: no replace group has more removed than added lines (a marker line is no line)
 pub open spec fn kf2_carve_out(f: PatchedFile) -> bool {
     forall|h: int, gs: int, fa: int, ge: int| 0 <= h < f.spec_hunks().len() && #[trigger] replace_group(hunk_lines(f, h), gs, fa, ge)
-        ==> fa - gs <= ge - fa
+        ==> (fa - mk(hunk_lines(f, h), fa)) - gs <= ge - fa
 }
 
 /// D-b postcondition (A.1 (a)-(d), the carved (iv), the carved "removed lines accounted for"); `o` is the ghost origin sequence
